@@ -10,5 +10,6 @@ CONSTANTS
   MaxFaults = 1
   StoreMetaFirst = TRUE
   KillWaits = TRUE
+  ReplaceStaleDel = TRUE
 INVARIANT NeverDeletesNeeded
 CHECK_DEADLOCK FALSE
